@@ -41,6 +41,27 @@ Theorem C02_assign_is_put_keys_partial : forall ks t v doc fuel,
 Proof. exact assign_is_put. Qed.
 Print Assumptions C02_assign_is_put_keys_partial.
 
+(* `p |= f`: the match of a key path gets the FIRST result of f applied to it
+   (f evaluated with the match as its context, in the document where the path
+   has been created); no result leaves it alone.  For every body expression f. *)
+Theorem C02_update_first_result_keys_partial : forall ks r doc f n1 pos q qs st2 v,
+  ks <> [] -> (length ks <= f)%nat -> no_wild ks ->
+  viv ks doc = Some (n1, pos) ->
+  eval f r false [] [(O, pos)] (update (init_store doc) (O, []) (fun _ => n1)) = Ok (q :: qs, st2) ->
+  ptr_eqb (O, pos) q = false -> deref st2 q = Some v ->
+  eval (S f) (EUpdate (pk ks) r) false [] [(O, [])] (init_store doc)
+  = Ok ([(O, [])], update st2 (O, pos) (fun _ => v)).
+Proof. exact update_first_result. Qed.
+Print Assumptions C02_update_first_result_keys_partial.
+
+Theorem C02_update_no_result_keys_partial : forall ks r doc f n1 pos st2,
+  ks <> [] -> (length ks <= f)%nat -> no_wild ks ->
+  viv ks doc = Some (n1, pos) ->
+  eval f r false [] [(O, pos)] (update (init_store doc) (O, []) (fun _ => n1)) = Ok ([], st2) ->
+  eval (S f) (EUpdate (pk ks) r) false [] [(O, [])] (init_store doc) = Ok ([(O, [])], st2).
+Proof. exact update_no_result. Qed.
+Print Assumptions C02_update_no_result_keys_partial.
+
 (* non-vacuity: a path that creates a map under null and a padded sequence *)
 Example C02_example :
   let doc := Map [([97], Scalar TNull [110; 117; 108; 108]); ([98], Seq [(RIdx 0, Scalar TInt [49])])] in
